@@ -75,4 +75,17 @@ SuffixExact == last.act = "finish" => last.wrote = Frames(total - last.ret, tota
 
 \* action property: the cursor never moves backwards and moves by at most one per step
 Monotone == [][next' >= next /\ (alive' => next' <= next + 1)]_vars
+--------------------------------------------------------------------------
+(* Progress (C02): the caller's loop `while generate_step(buf) > 0 {}` terminates, and what it reaches is final.
+   Fairness is put only on the productive step - the caller is not obliged to call Query or Finish. *)
+Productive == next < total /\ \E b \in 1..MaxBuf : Step(b)
+FairSpec == Spec /\ WF_vars(Productive)
+
+\* every fair behaviour reaches the end of the utterance (by stepping or by Finish) ...
+Drains == <>(next = total)
+\* ... and stays there: an exhausted generator never produces again, a consumed one never revives
+ExhaustedForever == [](next = total => [](next = total))
+ConsumedForever == [](~alive => [](~alive))
+\* once a step returned 0 every later step returns 0 as well (the loop condition is stable)
+ZeroIsFinal == []((last.act = "step" /\ last.ret = 0) => []((last.act = "step") => last.ret = 0))
 ==========================================================================
